@@ -113,11 +113,11 @@ def make_config_h(dst, mpi, zlib, debug, extra_defs=()):
 
 
 def build_variant(scratch, mpi="off", zlib=True, debug=False, san=True, opt="-O1",
-                  config_defs=(), cdefs=(), compiler=None, hooks=True):
+                  config_defs=(), cdefs=(), compiler=None, hooks=True, cflags_extra=()):
     """Compile /repo's working tree file by file.  mpi: off | sim | ompi."""
     key = "v_%s_%s_%s_%s_%s" % (mpi, "z" if zlib else "nz", "dbg" if debug else "rel",
                                 "san" if san else "nosan",
-                                hashlib.md5(repr((opt, tuple(config_defs), tuple(cdefs), compiler, hooks)).encode()).hexdigest()[:6])
+                                hashlib.md5(repr((opt, tuple(config_defs), tuple(cdefs), compiler, hooks, tuple(cflags_extra))).encode()).hexdigest()[:6])
     d = os.path.join(scratch, key)
     lib = os.path.join(d, "libsc.a")
     cc = compiler or ("mpicc" if mpi == "ompi" else "gcc")
@@ -134,6 +134,7 @@ def build_variant(scratch, mpi="off", zlib=True, debug=False, san=True, opt="-O1
         ldflags += ["-fsanitize=address,undefined"]
     for c in cdefs:
         cflags.append("-D" + c)
+    cflags += list(cflags_extra)
     ldflags += ["-lm", "-lpthread"]
     if zlib:
         ldflags.insert(0, "-lz")
@@ -340,8 +341,10 @@ def check_props(pid, extra_targets=(), timeout=1800):
 
 def load_known():
     kn = []
-    p = os.path.join(VERIF, "known_findings.txt")
-    if os.path.exists(p):
+    files = [os.path.join(VERIF, "known_findings.txt")] + sorted(glob.glob(os.path.join(VERIF, "known_findings.d", "*.txt")))
+    for p in files:
+        if not os.path.exists(p):
+            continue
         for l in open(p):
             l = l.strip()
             m = re.match(r"finding:\s+property=(\S+)\s+key=(\S+)\s+--\s+(.*)", l)
